@@ -18,6 +18,20 @@ def targets(U, p, o):
     return [os.path.normpath(os.path.join(p["cwd"], base, U.types[m]["out"])) for m in members if U.types[m]["out"]]
 
 
+def above_root(path):
+    depth = 0
+    for comp in path.split("/"):
+        if comp in ("", "."):
+            continue
+        if comp == "..":
+            depth -= 1
+            if depth < 0:
+                return True
+        else:
+            depth += 1
+    return False
+
+
 def run(ctx):
     proof = ctx.prove()
     rng = random.Random(ctx.seed)
@@ -78,6 +92,15 @@ def run(ctx):
             o = h[pos]
             add(h[:pos] + [("rm", tpath), ("mkdir", tpath), o, ("rm", tpath), ("mkfile", tpath, content), o] + h[pos + 1:],
                 "written-file-became-dir", ref)
+    # a dependency whose location is above the root only from a SHALLOW base directory (its import path, computed against the
+    # deep default directory, is fine): the walk must stop with an error there, not skip it
+    deep = "@R/w/c/d1/d2/d3"
+    h4, up4 = U.ix("H4"), U.ix("Up4")
+    for hist in ([("export_all_to", h4, "@R")], [("export_all_to", up4, "@R")], [("export_all", h4)], [("export_all", h4), ("export_all_to", h4, "@R")],
+                 [("export_all_to", h4, "@R"), ("export_all", h4)], [("export_all_to", h4, "@R"), ("export_all_to", h4, "@R/w/c/d1/d2")],
+                 [("export", U.ix("A")), ("export_all_to", h4, "@R"), ("export_all", U.ix("B"))]):
+        cases.append(dict(root="@R", cwd="@R/w/c", env=deep, init=[], ops=list(hist)))
+        meta.append(dict(kind="above-root-from-shallow-dir", ref=None))
     if ctx.replay:
         rp = json.load(open(ctx.replay))
         cases, meta = [rp["case"]] + ([rp["reference"]] if "reference" in rp else []), [dict(kind="replay", ref=1 if "reference" in rp else None)] + ([dict(kind="plain", ref=None)] if "reference" in rp else [])
@@ -98,6 +121,14 @@ def run(ctx):
                 t = U.types[o[1]]
                 if (t["out"] is None or "up.ts" in (t["out"] or "")) and code == "O":
                     viol.append(dict(case=c, what="export of %s returned Ok" % t["rust"], results=r[0]))
+                # any member whose location climbs above the root makes the export an error
+                pl = placed[k]
+                po = pl["ops"][c["ops"].index(o)]
+                base = (pl["env"] if pl["env"] is not None else "./bindings") if o[0] != "export_all_to" else po[2]
+                for mm in ([o[1]] if o[0] == "export" else U.closure(o[1])):
+                    out = U.types[mm]["out"]
+                    if out and above_root(os.path.join(pl["cwd"], base, out)) and code == "O":
+                        viol.append(dict(case=c, what="export returned Ok although the location of %s is above the root" % U.types[mm]["rust"], results=r[0]))
         if m["ref"] is not None:
             # after the retry, the tree equals the fault-free tree
             ref = real[m["ref"]]
